@@ -1934,6 +1934,17 @@ def _np_sort(I, a, order=None, **kw):
     raise Unsupported("np.sort of a plain array")
 
 
+@method("struct", "sort")
+def _struct_sort(I, b, order=None, **kw):
+    """ndarray.sort(order=f) in place: the rows are permuted into an order
+    sorted by f (which permutation, among rows that tie, is unspecified)"""
+    if not isinstance(b, Cell) or b.view_of is not None:
+        raise Unsupported("in-place sort of a view")
+    out = _np_sort(I, b, order=order)
+    b.write(out.read())
+    return None
+
+
 @lib("numpy.logaddexp")
 def _logaddexp(I, a, b):
     a, b = to_real(_val(a)), to_real(_val(b))
